@@ -18,6 +18,7 @@ func checkC11(c *Ctx) {
 	r.Rule("R11.3", "bytes follow the state: setentry derives the encoder's mode bits as jsonMode = useJSON and noColor = !(useColor && !useJSON) from the emitting logger, on every path; these two encoder fields are stored nowhere else; the encoder's top-level format branch tests exactly these fields")
 	r.Rule("R11.4", "options and With-forms: WithJSONMode/WithColorMode (methods and Opt constructors) call the namesake Set with their own arguments (methods: shared with R10.2)")
 	r.Rule("R11.6", "the shape of a record comes from this record's state only: in each of the three modes no field of the pooled encoder can be read before the current record wrote it (engine E10, shared with R09.1), so material formatted for a previous record in another format cannot surface")
+	r.Rule("R11.7", "no colour outside colored mode: in JSON and logfmt mode (mode bits pruned, the testing/debug dump included) no reachable site writes a constant containing the escape byte; positive control: the same query finds the escape writers in colored mode")
 	r.Rule("R11.5", "isolation: no store to useJSON/useColor of another logger (shared with R10.1)")
 	for _, tags := range c.Configs([]string{""}, []string{"", "verbose", "hint"}) {
 		p := c.Prog(tags)
@@ -35,9 +36,11 @@ func checkC11(c *Ctx) {
 		freshChildren(c, p, m, "R11.5", func(n string) bool { return n == "WithJSONMode" || n == "WithColorMode" })
 		// the record's shape must come from this record's mode only: no pooled encoder field is read stale in any mode
 		c09Pooled(c, p, m, "R11.6", feasibleModes)
+		c11NoEscapes(c, p, m)
 	}
 	c.Floor["R11.1"] = 4
 	c.Floor["R11.3"] = 5
+	c.Floor["R11.7"] = 3
 }
 
 // pickLoop recognises "the last variadic argument, true when there is none" and returns the value holding the
@@ -366,4 +369,71 @@ func c11Encoder(c *Ctx, p *Prog, m *Model) {
 		}
 		fieldOrder(c, p, m, mode, "R11.3", []string{"Begin", "printTimestamp", "printLoggerName", "printSeverity", msgPrinter, "serializeAttrs", "printPC", "printRestLinesOfMsg", "End", "Bytes", "printOut"}, opt)
 	}
+}
+
+// c11NoEscapes: R11.7 — the shape of a record agrees with the state also in what it does NOT contain: in JSON and
+// logfmt mode (the dump appended under go test or a debugger included) no reachable site writes a constant that
+// starts a terminal escape sequence. The colour helpers are reachable in colored mode only.
+func c11NoEscapes(c *Ctx, p *Prog, m *Model) {
+	r := c.R
+	for _, mode := range []Mode{{true, true}, {false, true}} {
+		mr := NewModeReach(p, m, mode, sessionEntries(p), false)
+		if len(mr.Funcs()) < 10 {
+			r.Unk("R11.7", fmt.Sprintf("escapes[%s]", mode), "-", "only %d functions reachable: the emission model lost its anchors", len(mr.Funcs()))
+			continue
+		}
+		var where []string
+		for _, ce := range mr.constEmissions() {
+			if strings.Contains(ce.Text, "\x1b") {
+				where = append(where, shortName(ce.Fn)+" at "+p.Pos(instrPos(ce.Instr)))
+			}
+		}
+		where = append(where, depColourCalls(p, mr)...)
+		where = dedupStr(where)
+		r.Check(len(where) == 0, "R11.7", fmt.Sprintf("escapes[%s]", mode), "-", fmt.Sprintf("no escape-sequence constant is written in %s mode (%d functions reachable, testing/debug dump included)", mode, len(mr.Funcs())),
+			fmt.Sprintf("a %s logger can write terminal escape sequences (%s): the record, or the diagnostics that follow it, have the colored shape although both getters say otherwise", mode, strings.Join(where, "; ")))
+	}
+	mrc := NewModeReach(p, m, Mode{false, false}, sessionEntries(p), false)
+	n := len(depColourCalls(p, mrc))
+	for _, ce := range mrc.constEmissions() {
+		if strings.Contains(ce.Text, "\x1b") {
+			n++
+		}
+	}
+	if n == 0 {
+		r.Unk("R11.7", "escapes[control]", "-", "the query finds no escape writer in colored mode either: it cannot see them")
+	} else {
+		r.Ok("R11.7", "escapes[control]", "-", "positive control: %d escape-writing sites are reachable in colored mode", n)
+	}
+}
+
+// depColourCalls: mode-reachable calls into the colour package of the dependency that write to a Writer or wrap a
+// text in a colour (its helpers produce the escape sequences themselves).
+func depColourCalls(p *Prog, mr *ModeReach) []string {
+	var out []string
+	for _, fn := range mr.Funcs() {
+		fb := mr.Blocks[fn]
+		for _, cs := range callsIn(fn) {
+			if !fb[cs.Block()] {
+				continue
+			}
+			cal := calleeOf(cs)
+			if cal == nil || cal.Pkg == nil || !strings.HasSuffix(cal.Pkg.Pkg.Path(), "/term/color") {
+				continue
+			}
+			writes := false
+			for _, q := range cal.Params {
+				if q.Type().String() == "io.Writer" {
+					writes = true
+				}
+			}
+			if strings.HasPrefix(cal.Name(), "Wrap") || strings.HasPrefix(cal.Name(), "Highlight") || strings.HasPrefix(cal.Name(), "Echo") {
+				writes = true
+			}
+			if writes {
+				out = append(out, shortName(fn)+" calls "+cal.String()+" at "+p.Pos(instrPos(cs)))
+			}
+		}
+	}
+	return out
 }
